@@ -17,9 +17,12 @@ QUICK = {
                                     "noop": 10, "idle": 4, "done": 4, "examine": 3}),
    }
 THOROUGH = {
-    "exhaustive": [("2sess-1mbox-2msgs-flags-depth8", dict(depth=8, maxid=2, acts=["Select", "Noop", "Store", "Fetch", "Append", "Idle", "Search"],
+    "exhaustive": [("2sess-1mbox-2msgs-flags-depth8", dict(depth=8, maxid=2, acts=["Select", "Noop", "Store", "Fetch", "Append", "Idle"],
                      flags='{{"Deleted"}, {"Seen"}, {"Flagged", "k1"}, {"Recent"}}', modes=("+", "-", "="),
                      silents="{FALSE, TRUE}")),
+                   ("2sess-1mbox-2msgs-search-status-depth7", dict(depth=7, maxid=2,
+                     acts=["Select", "Noop", "Store", "Fetch", "Append", "Search", "Status"],
+                     flags='{{"Deleted"}, {"Seen"}}', modes=("+", "-"), silents="{FALSE}")),
                    ("2sess-1mbox-3msgs-depth6", dict(depth=6, maxid=3, flags='{{"Deleted"}, {"Seen", "k1"}}',
                                                      modes=("+", "-", "="), silents="{FALSE, TRUE}"))],
     "simulate": [("2mbox", dict(mbox=("inbox", "b"), maxid=6, maxpend=8, sets="SetsMedium", acts=ALL,
@@ -28,6 +31,7 @@ THOROUGH = {
     "random": 800,
     "gen": dict(length=50, weights={"store": 24, "fetch": 10, "fetchbody": 8, "append": 8, "copy": 5, "search": 4,
                                     "noop": 10, "idle": 4, "done": 4, "examine": 3}),
+    "tlc_timeout": 2400,
     "tlc_timeout": 3000,
    }
 
